@@ -12,6 +12,7 @@ import ast
 import inspect
 import itertools
 import json
+import os
 import textwrap
 import threading
 
@@ -127,6 +128,32 @@ def extract_run_step():
     return {"code": fn.__code__, "read": read, "write": write}
 
 
+def probe_save():
+    """the state save every stepping handler performs after its unlock (and GET /save-state performs at any time) goes
+    through InstanceManager._get_instance_state.  The REAL function is run on a locked stub session: does it touch
+    the lock flag of the LIVE session?  (frame condition of the protocol: only lock/unlock/try_lock write the flag)"""
+    import BPTK_Py.server.bptkServer as srv
+    fn = srv.InstanceManager._get_instance_state
+
+    class _B(object):
+        def __init__(self):
+            self.session_state = {"lock": True, "step": 0.0, "settings_log": {}, "results_log": {}}
+    im = srv.InstanceManager(lambda: None)
+    b = _B()
+    im._instances["probe"] = {"instance": b, "time": None, "timeout": {"hours": 1}}
+    try:
+        fn(im, "probe")
+    except Exception as e:
+        raise ValueError("_get_instance_state could not be probed: %r" % (e,))
+    src, first = inspect.getsourcelines(fn)
+    tree = ast.parse(textwrap.dedent("".join(src))).body[0]
+    line = None
+    for n in ast.walk(tree):
+        if isinstance(n, ast.Assign) and '["lock"]' in ast.unparse(n.targets[0]).replace("'", '"'):
+            line = first + n.lineno - 1
+    return {"clears_live_lock": b.session_state.get("lock") is not True, "code": fn.__code__, "line": line}
+
+
 def extract():
     import BPTK_Py.server.bptkServer as srv
     from BPTK_Py.bptk import bptk
@@ -136,6 +163,17 @@ def extract():
     for k, h in hs.items():
         if not h["steps"]:
             raise ValueError("handler %s: no run_step call found" % k)
+    save = probe_save()
+    if save["clears_live_lock"]:
+        if save["line"] is None:
+            raise ValueError("_get_instance_state changes the live lock flag at a place the extractor does not recognise")
+        # the save is an operation of the protocol: a write of False to the flag, after each accepted stepping
+        # request's unlock, and on its own as a GET /save-state request
+        for h in hs.values():
+            h["save"] = save
+        hs["save"] = {"name": "save-state", "code": None, "test": None, "atomic_test": False, "lock": None, "steps": [], "unlock_normal": None,
+                      "unlock_error": None, "generator": False, "loop": None, "gen_code": None, "yields": [], "save": save,
+                      "unlock_when_refused": False}
     if any(h["atomic_test"] for h in hs.values()):
         # a combined test-and-set only counts as atomic if the primitive really holds a mutex around test and set
         ok = False
@@ -190,6 +228,8 @@ def ops_of(kind, h, nsteps):
         ops += ["R%d" % j, "W%d" % j]
     if h["unlock_normal"] or h["unlock_error"]:
         ops.append("U")
+    if h.get("save"):
+        ops.append("S")              # the state save (only present when it writes the live lock flag)
     return ops
 
 
@@ -218,6 +258,9 @@ def bmc(hs, kinds, nsteps, want_violation=True, faults=True):
     fault = {r: z3.Int("fault_%d" % r) for r in R}
     fstep = {r: z3.Int("fstep_%d" % r) for r in R}
     for r in R:
+        if nsteps[r] == 0:
+            s.add(fault[r] == 0, fstep[r] == 0)
+            continue
         if not faults:
             s.add(fault[r] == 0)
         else:
@@ -225,7 +268,7 @@ def bmc(hs, kinds, nsteps, want_violation=True, faults=True):
             s.add(z3.Or(*[fault[r] == a for a in allowed]))
         s.add(fstep[r] >= 0, fstep[r] < nsteps[r])
 
-    lockops = [(r, o) for (r, o) in allops if o in ("L", "U", "X") or (o == "T" and hs[kinds[r]]["atomic_test"])]
+    lockops = [(r, o) for (r, o) in allops if o in ("L", "U", "X", "S") or (o == "T" and hs[kinds[r]]["atomic_test"])]
 
     def lock_at(t, exclude=None):
         """value of the lock flag seen at time t"""
@@ -252,6 +295,8 @@ def bmc(hs, kinds, nsteps, want_violation=True, faults=True):
             proceed[r] = z3.BoolVal(True)
         if (r, "X") in act:
             s.add(act[(r, "X")] == z3.Not(proceed[r]))
+        if (r, "S") in act:
+            s.add(act[(r, "S")] == proceed[r])        # a refused request returns before the save; GET /save-state always saves
     rv, wv = {}, {}
     wops = [(r, o) for (r, o) in allops if o.startswith("W")]
     for r in R:
@@ -351,7 +396,16 @@ def real_run(sc, hs, rs):
     """forces the schedule on the real handlers; returns observations"""
     from BPTK_Py.server import BptkServer
     from BPTK_Py.bptk import bptk as bptk_cls
-    app = BptkServer(__name__, bptk_factory)
+    save = hs.get("save", {}).get("save") if "save" in hs else None
+    statedir = None
+    if save:
+        # the save only happens with an external state adapter configured
+        import tempfile
+        from BPTK_Py.externalstateadapter import FileAdapter
+        statedir = tempfile.mkdtemp(prefix="c18-", dir=os.environ.get("VCHECK_SCRATCH"))
+        app = BptkServer(__name__, bptk_factory, FileAdapter(False, statedir))
+    else:
+        app = BptkServer(__name__, bptk_factory)
     c0 = app.test_client()
     inst = json.loads(c0.post("/start-instance", data=json.dumps({"timeout": {"hours": 1}}), content_type="application/json").data)["instance_uuid"]
     c0.post("/%s/begin-session" % inst, data=json.dumps({"scenario_managers": ["sm"], "scenarios": ["1"], "equations": ["stock"]}),
@@ -395,6 +449,8 @@ def real_run(sc, hs, rs):
             watch[h["gen_code"]] = gtab
             table = {ln: fn for ln, fn in table.items() if ln == h["test"]}
         watch.setdefault(code, {}).update(table)
+    if save:
+        watch.setdefault(save["code"], {})[save["line"]] = lambda frame: "S"
     order = [("Q%d" % r, ("U" if o == "X" else o)) for r, o in sc["order"]]
     enf = schedbmc.Enforcer(order, watch, timeout=8.0)
     # fault injection: exception inside run_step after the clock read
@@ -419,6 +475,9 @@ def real_run(sc, hs, rs):
         def f():
             cl = app.test_client()
             k = kinds[r]
+            if k == "save":
+                resp = cl.get("/save-state")
+                return resp.status_code, ""
             if k == "step":
                 resp = cl.post("/%s/run-step" % inst)
                 return resp.status_code, resp.data.decode()
@@ -463,6 +522,9 @@ def real_run(sc, hs, rs):
     follow = c0.post("/%s/run-step" % inst)
     obs["follow_up_status"] = follow.status_code
     obs["follow_up_body"] = follow.data.decode()[:120]
+    if statedir:
+        import shutil
+        shutil.rmtree(statedir, ignore_errors=True)
     return obs
 
 
@@ -517,13 +579,15 @@ def run(tier):
     from BPTK_Py.bptk import bptk
     rep = harness.Report(PID, tier, "model_checking", MODULE)
     rep.encoded(_unwrap(srv.BptkServer._run_step_resource), _unwrap(srv.BptkServer._run_steps_resource),
-                _unwrap(srv.BptkServer._stream_steps_resource), bptk.lock, bptk.unlock, bptk.is_locked, bptk.run_step)
+                _unwrap(srv.BptkServer._stream_steps_resource), bptk.lock, bptk.unlock, bptk.is_locked, bptk.run_step,
+                srv.InstanceManager._get_instance_state)
     try:
         hs, rs = extract()
     except Exception as e:
         rep.inconcl("extraction failed: %s" % e)
         return rep.finish()
-    summary = {k: {x: v for x, v in h.items() if x not in ("code", "gen_code")} for k, h in hs.items()}
+    summary = {k: {x: v for x, v in h.items() if x not in ("code", "gen_code", "save", "inner")} for k, h in hs.items()}
+    summary["state_save_writes_live_lock_flag"] = "save" in hs
     queries, unsat = 0, 0
     samples = []
     combos = []
@@ -534,8 +598,11 @@ def run(tier):
     combos += [("step", "steps", "stream"), ("steps", "step", "step"), ("stream", "step", "step")]
     if tier == "thorough":
         combos += [("steps", "steps", "step"), ("stream", "stream", "step"), ("steps", "stream", "steps"), ("step", "step", "step")]
+    if "save" in hs:
+        # the state save writes the live lock flag: it is part of the protocol, also as a request of its own
+        combos += [("steps", "save", "step"), ("stream", "save", "step"), ("steps", "save", "steps")]
     for kinds in combos:
-        nst = tuple(1 if k == "step" else 2 for k in kinds)
+        nst = tuple(0 if k == "save" else (1 if k == "step" else 2) for k in kinds)
         for faults in (False, True):
             res, sc = bmc(hs, kinds, nst, want_violation=True, faults=faults)
             queries += 1
@@ -582,7 +649,8 @@ def run(tier):
     rep.canary("run-steps-without-lock-test", r2 == "sat")
     rep.assume("2 and 3 concurrent requests on one instance; run-steps with numberSteps = 2, stream-steps with 2 steps left; source-line granularity",
                "fault per request: none, exception raised inside run_step after the clock read, client gone after a streamed step",
-               "lock/unlock/is_locked are plain flag operations (checked on the source); run_step reads the clock at its first and writes it at its last clock statement")
+               "lock/unlock/is_locked are plain flag operations (checked on the source); run_step reads the clock at its first and writes it at its last clock statement",
+               "frame condition: the only other writer of the flag in the package, the state save (InstanceManager._get_instance_state), is run concretely on a locked stub session; if it changes the live flag it becomes an operation of the model (after every accepted request's unlock, and as a GET /save-state request)")
     rep.coverage.update({"states": queries, "transitions": max(1, unsat), "traces_validated_against_impl": len(rep.cands) + validated, "samples": samples,
                          "extracted_protocol": summary, "run_step_lines": {"read": rs["read"], "write": rs["write"]}, "exhaustive": True,
                          "explanation": "states = BMC queries (each covers every schedule, request-kind pair and fault choice within the bound); transitions = queries unsat",
